@@ -23,15 +23,20 @@ Inverse(e) == CHOOSE f \in Subgroup(G) : GAdd(G, e, f) = Id
 
 VARIABLES a, b, c, m, n, sub
 v == <<a, b, c, m, n, sub>>
-Init == /\ sub = Subgroup(G)
-        /\ a \in sub /\ b \in sub
-        /\ IF MODE = "triples" THEN c \in sub /\ m = 0 /\ n = 0
-           ELSE c = Id /\ m \in (0 - q)..(2 * q) /\ n \in {s - q : s \in SCALARS}   \* cfg files cannot hold negative numbers
-Next == UNCHANGED v
+(* two-stage fan-out: the initial states fix a, the step picks the rest, so     *)
+(* that all TLC workers share the tuples                                      *)
+None == <<"none">>
+Init == sub = Subgroup(G) /\ a \in sub /\ b = None /\ c = None /\ m = 0 /\ n = 0
+Next == /\ b = None
+        /\ b' \in sub
+        /\ IF MODE = "triples" THEN c' \in sub /\ m' = 0 /\ n' = 0
+           ELSE c' = Id /\ m' \in (0 - q)..(2 * q) /\ n' \in {s - q : s \in SCALARS}   \* cfg files cannot hold negative numbers
+        /\ UNCHANGED <<a, sub>>
 Spec == Init /\ [][Next]_v
+Ready == b # None
 
 Closed(e) == e \in sub
-AddAxioms ==
+AddAxioms == Ready =>
   /\ GAdd(G, a, b) = GAdd(G, b, a)
   /\ GAdd(G, GAdd(G, a, b), c) = GAdd(G, a, GAdd(G, b, c))
   /\ GAdd(G, a, Id) = a /\ GAdd(G, Id, a) = a
@@ -40,7 +45,7 @@ AddAxioms ==
   /\ (a = b) <=> (GEnc(G, a) = GEnc(G, b))
   /\ (GRefusesIdentity(G) /\ a = Id) \/ (GDec(G, GEnc(G, a)).ok /\ GDec(G, GEnc(G, a)).e = a)
 MulAxioms ==
-  MODE = "scalars" =>
+  (Ready /\ MODE = "scalars") =>
     /\ MulZ(a, m) = (IF m >= 0 THEN NFold(a, m) ELSE Inverse(NFold(a, 0 - m)))
     /\ MulZ(a, m) = MulZ(a, m + q) /\ MulZ(a, m) = MulZ(a, m % q)
     /\ Closed(MulZ(a, m))
